@@ -1,9 +1,91 @@
 import Qx.Driver.Proto
 import Qx.Xml.Tree
-/-! Driver ops with prefix `scalar-` of the C01/C02 driver. -/
+import Qx.Xml.Codec.Scalar
+/-! Driver ops with prefix `scalar-` of the C01/C02 driver: the typed scalar helpers (tier B).
+Fields are TAB separated; strings are hex-encoded UTF-8, `-` for the empty string. -/
 namespace Qx.Driver.ScalarOps
+open Qx.Xml.Codec.Scalar
+
+def strOfHex (h : String) : Option (List Char) :=
+  if h = "-" then some [] else
+  match Qx.Driver.fromHex h with
+  | none => none
+  | some bs => (String.fromUTF8? (ByteArray.mk bs.toArray)).map (·.toList)
+
+def bytesOfHex (h : String) : Option (List UInt8) :=
+  if h = "-" then some [] else Qx.Driver.fromHex h
+
+def hexOfBytes (bs : List UInt8) : String := if bs.isEmpty then "-" else Qx.Driver.toHex bs
+def hexOfStr (s : List Char) : String := hexOfBytes (String.ofList s).toUTF8.toList
+
+def showOptInt : Option Int → String
+  | none => "none"
+  | some v => toString v
+
+def showDt : Option Dt → String
+  | none => "none"
+  | some d => s!"{d.year}-{d.month}-{d.day} {d.hour}:{d.minute}:{d.second}.{d.msec}"
+
+def bad : Option String := some "bad-op"
 
 /-- handle one op line; `none` when the line is not ours -/
-def step (_line : String) : Option String := none
+def step (line : String) : Option String :=
+  match Qx.Driver.fields line with
+  | ["scalar-int", bits, sg, h] =>
+    match bits.toNat?, strOfHex h with
+    | some b, some s =>
+      if sg = "s" then some (showOptInt (parseIntCode b true s))
+      else if sg = "u" then some (showOptInt (parseIntCode b false s))
+      else bad
+    | _, _ => bad
+  | ["scalar-numstr", v] =>
+    match v.toInt? with
+    | some v => some (hexOfStr (intToStr v))
+    | none => bad
+  | ["scalar-bool", h] =>
+    match strOfHex h with
+    | some s => some (match parseBoolCode s with | none => "none" | some true => "true" | some false => "false")
+    | none => bad
+  | ["scalar-boolstr", b] =>
+    if b = "1" then some (hexOfStr (boolToStr true))
+    else if b = "0" then some (hexOfStr (boolToStr false))
+    else bad
+  | ["scalar-b64dec", h] =>
+    match strOfHex h with
+    | some s => some (match b64decodeCode s with | none => "none" | some bs => hexOfBytes bs)
+    | none => bad
+  | ["scalar-b64enc", h] =>
+    match bytesOfHex h with
+    | some bs => some (hexOfStr (b64encode bs))
+    | none => bad
+  | ["scalar-dtparse", h] =>
+    match strOfHex h with
+    | some s => some (showDt (dtParseCode s))
+    | none => bad
+  | ["scalar-dtprint", v] =>
+    match (v.splitOn " ").map String.toInt? with
+    | [some y, some mo, some d, some h, some mi, some s, some ms] =>
+      if mo < 0 ∨ d < 0 ∨ h < 0 ∨ mi < 0 ∨ s < 0 ∨ ms < 0 then bad
+      else some (hexOfStr (dtToStr ⟨y, mo.toNat, d.toNat, h.toNat, mi.toNat, s.toNat, ms.toNat⟩))
+    | _ => bad
+  | ["scalar-class", cp] =>
+    match cp.toNat? with
+    | some n =>
+      let c := Char.ofNat n
+      some s!"{if isSpace c then 1 else 0}{if isPunct c then 1 else 0}"
+    | none => bad
+  | ["scalar-tzoparse", h] =>
+    match strOfHex h with
+    | some s => some (toString (tzoParseCode s))
+    | none => bad
+  | ["scalar-tzoprint", v] =>
+    match v.toInt? with
+    | some v => some (hexOfStr (tzoToStr v))
+    | none => bad
+  | ["scalar-enum", names, h] =>
+    match (names.splitOn ",").mapM strOfHex, strOfHex h with
+    | some ns, some s => some (match enumFromString ns s with | none => "none" | some i => toString i)
+    | _, _ => bad
+  | _ => none
 
 end Qx.Driver.ScalarOps
